@@ -207,6 +207,14 @@ def machine(tier, ctx):
             perm = data.draw(st.permutations(list(range(len(self.it.nodes)))))
             self.do(dict(op="permute", perm=list(perm)))
 
+        @precondition(lambda self: len(self.it.nodes) > 1)
+        @rule(data=st.data())
+        def compute_permute_compute(self, data):
+            self.do(dict(op="compute"))
+            perm = data.draw(st.permutations(list(range(len(self.it.nodes)))))
+            self.do(dict(op="permute", perm=list(perm)))
+            self.do(dict(op="compute"))
+
         @rule(data=st.data())
         def elsewhere(self, data):
             opts = data.draw(engine.options(self.it.lbls, True))
